@@ -1116,6 +1116,14 @@ def rule_enc_first_mapped(ctx):
     return r
 
 
+def _mentions_param(shape, name):
+    if name is None or not isinstance(shape, dict):
+        return False
+    if shape.get('param') == name or 'dyn' in shape:
+        return True
+    return any(_mentions_param(a, name) for a in (shape.get('args') or []))
+
+
 def rule_lockscope(ctx):
     f = ctx.facts()
     r = RuleResult('LOCKSCOPE', 'the mutex guarding ReplaceSource\'s sorted index is never held across a call into a child source or a '
@@ -1123,6 +1131,11 @@ def rule_lockscope(ctx):
                                 'code can form and other observers are not blocked for the length of a stream')
     r.floor = 1
     R = anchors.replace_source(f)
+    inner_param = None
+    for fld in anchors.fields(f.adts[R['adt']]):
+        if fld['name'] == R['inner']:
+            a0 = anchors.shape_arg(fld['shape'])
+            inner_param = a0.get('param') if isinstance(a0, dict) else None
     for b in f.body_list:
         if b.promoted is not None:
             continue
@@ -1173,6 +1186,10 @@ def rule_lockscope(ctx):
                     bad.append((t2['s'], 'call into a source (`%s`)' % c2['path']))
                 elif c2['name'] in ('call', 'call_mut', 'call_once') and t2['arg_tys'] and 'dyn' in t2['arg_tys'][0]:
                     bad.append((t2['s'], 'caller-supplied callback'))
+                elif c2.get('trait') and c2.get('tshapes') and _mentions_param(c2['tshapes'][0], inner_param):
+                    # any trait method whose receiver is (built from) the wrapped source's type parameter runs user code:
+                    # Hash / PartialEq / Debug of the child as much as its Source methods
+                    bad.append((t2['s'], 'call into the wrapped source (`%s` on a value of its type parameter)' % c2['path']))
             if escapes:
                 # the guard is returned: every caller holds it; they are checked as if they had locked themselves
                 for cb in f.body_list:
@@ -1269,5 +1286,41 @@ def rule_forward_all(ctx):
                         'a path through ConcatSource\'s chunk handler returns without calling the consumer\'s chunk callback and without '
                         'recording a pending close: the child\'s notification (for instance the unmapped position that ends a mapped '
                         'segment of a nested source) is dropped, and the following text is attributed to the previous original location')
+    r.check_floor()
+    return r
+
+
+def rule_ctor_verbatim(ctx):
+    """the constructors of SourceMapSource store a requested boolean option as given"""
+    f = ctx.facts()
+    r = RuleResult('CTOR-VERBATIM', 'a boolean the caller passes to a SourceMapSource constructor (remove_original_source) is stored as '
+                                    'given — a constant default or the caller\'s value, never a value computed from other inputs — so '
+                                    '"removal of the original source is requested" means what the caller said')
+    r.floor = 1
+    adt = anchors.adt_by_name(f, 'SourceMapSource')
+    bools = [fl['name'] for fl in anchors.fields(adt) if fl['ty'] == 'bool']
+    if not bools:
+        raise anchors.AnchorMissing('SourceMapSource has no bool field')
+    for m in f.body_list:
+        if m.promoted is not None or m.d.get('derived') or (m.d.get('impl_trait') or '').endswith('Clone'):
+            continue
+        for pt, s in m.points():
+            if not (s['k'] == 'assign' and s['r']['k'] == 'agg' and s['r'].get('path') == adt['path']):
+                continue
+            for n, o in zip(s['r']['fields'], s['r']['ops']):
+                if n not in bools:
+                    continue
+                e = inline(f, m.expr_of_operand(o), depth=2)
+                bad = [x for x in walk(e) if x[0] in ('bin', 'un') or
+                       (x[0] == 'call' and x[1].rsplit('::', 1)[-1] not in ('into', 'from', 'clone', 'copied', 'cloned', 'deref', 'unwrap_or_default',
+                                                                            'unwrap_or', 'default', 'borrow', 'as_ref'))]
+                roots = {(rt[1], tuple(fs)) for rt, fs in access_paths(e) if rt[0] == 'arg'}
+                ok = not bad and len(roots) <= 1
+                r.site('%s: field `%s` is stored as given' % (m.path, n), s['s'], 'ok' if ok else 'violation')
+                if not ok:
+                    r.violation('%s:%s' % (m.path, n), s['s'], m.path,
+                                'constructor computes `%s` from other inputs instead of storing the caller\'s value: the request is silently '
+                                'changed (e.g. removal of the original source switched off when no original source text is supplied, '
+                                'although the outer map\'s sourcesContent provides it)' % n)
     r.check_floor()
     return r
